@@ -93,7 +93,8 @@ func (x *Unit) chanSend(st *State, ch, v Val, node ast.Node) {
 }
 
 func (x *Unit) chanSendEffect(st *State, ch, v Val, node ast.Node) {
-	x.chanHook(st, "send", ch, &v, nil)
+	// at-send clauses see the state just before the send (sent(ch) does not count this value yet)
+	defer x.chanHook(st, "send", ch, &v, nil)
 	// "at send CH assert e"
 	b := x.eng.blockFor(x.pkg.PkgPath, x.fr.loopBase)
 	if b == nil {
@@ -229,6 +230,8 @@ func (x *Unit) libCall(st *State, pc *preparedCall, name string, n int) ([]Val, 
 		x.envStep(st)
 		e := x.uf("ctxerr", SIface, recv.T)
 		x.fact(Cmp(">", IfaceTyp(e), IntLit(0)))
+		// a context's error is context.Canceled or context.DeadlineExceeded
+		x.fact(Or(Eq(e, x.namedSentinel("context.Canceled")), Eq(e, x.namedSentinel("context.DeadlineExceeded"))))
 		return one(x.define("err", Ite(x.ctxDone(st, recv.T), e, IfaceNil)), rt(0))
 	case "context.WithCancel", "context.WithTimeout", "context.WithDeadline", "context.WithCancelCause":
 		child := x.fresh("ctx", SIface)
@@ -277,6 +280,7 @@ func (x *Unit) libCall(st *State, pc *preparedCall, name string, n int) ([]Val, 
 	case "errors.New", "github.com/pkg/errors.New", "github.com/pkg/errors.Errorf", "fmt.Errorf", "golang.org/x/xerrors.Errorf", "golang.org/x/xerrors.New":
 		e := x.fresh("err", SIface)
 		x.assume(st, Cmp(">", IfaceTyp(e), IntLit(0)))
+		x.assume(st, Eq(IfaceVal(e), x.alloc(st))) // a new error value is a new object: different from every existing error
 		if strings.HasSuffix(name, "Errorf") && len(args) >= 2 {
 			// %w wrapping keeps the cause of the (last) error argument
 			x.wrapCause(st, pc, e)
@@ -297,11 +301,7 @@ func (x *Unit) libCall(st *State, pc *preparedCall, name string, n int) ([]Val, 
 		x.assume(st, Eq(Eq(IfaceTyp(r), IntLit(0)), Eq(IfaceTyp(args[0].T), IntLit(0))))
 		return one(r, rt(0))
 	case "errors.Is", "github.com/pkg/errors.Is":
-		r := x.fresh("errIs", SBool)
-		x.assume(st, Imp(Eq(args[0].T, args[1].T), r))
-		x.assume(st, Imp(And(Eq(IfaceTyp(args[0].T), IntLit(0)), Cmp(">", IfaceTyp(args[1].T), IntLit(0))), Not(r)))
-		x.assume(st, Imp(Eq(x.uf("errcause", SIface, args[0].T), args[1].T), r))
-		return one(r, boolT)
+		return one(x.errIs(args[0].T, args[1].T), boolT)
 	case "errors.Unwrap":
 		return []Val{x.freshVal(st, "unwrapped", rt(0))}, true
 	case "(error).Error":
@@ -401,6 +401,18 @@ func (x *Unit) wrapCause(st *State, pc *preparedCall, e T) {
 	} else {
 		x.assume(st, Eq(x.uf("errcause", SIface, e), e))
 	}
+}
+
+// errIs: errors.Is(a, b) as a function of its arguments (error chains are immutable): true when a is b or a's cause is b,
+// false for a nil a and a non-nil b; otherwise unconstrained.
+func (x *Unit) errIs(a, b T) T {
+	r := x.uf("errIs", SBool, a, b)
+	if x.binders == 0 {
+		x.fact(Imp(Eq(a, b), r))
+		x.fact(Imp(And(Eq(IfaceTyp(a), IntLit(0)), Cmp(">", IfaceTyp(b), IntLit(0))), Not(r)))
+		x.fact(Imp(Eq(x.uf("errcause", SIface, a), b), r))
+	}
+	return r
 }
 
 func errorIface() *types.Interface {
